@@ -45,23 +45,34 @@ def key_tables() -> List[Tuple[str, Callable[[], DictV]]]:
     def k(name: str) -> Sym:
         return Sym(name, "key", ("dictkey", name))
 
-    def mk(req: int, opt: int, relaxed: bool) -> Callable[[], DictV]:
+    def mk(req: int, opt: int, relaxed: Any) -> Callable[[], DictV]:
         def f() -> DictV:
             items: List[Tuple[V, V]] = []
+            if relaxed == "first":
+                items.append((ELL, TupleV([ELL, Const(False)])))
             for i in range(req):
                 items.append((k(f"r{i+1}"), TupleV([member(f"R{i+1}"), Const(False)])))
+            if relaxed == "middle":
+                items.append((ELL, TupleV([ELL, Const(False)])))
             for i in range(opt):
                 items.append((k(f"o{i+1}"), TupleV([member(f"O{i+1}"), Const(True)])))
-            if relaxed:
+            if relaxed is True:
                 items.append((ELL, TupleV([ELL, Const(False)])))
             return DictV(items)
         return f
     out = []
     for req, opt, rel in [(0, 0, False), (0, 0, True), (1, 0, False), (0, 1, False), (1, 1, False), (1, 1, True),
-                          (2, 0, False), (1, 0, True), (0, 1, True)]:
-        name = "{" + ", ".join([f"r{i+1}" for i in range(req)] + [f"optional(o{i+1})" for i in range(opt)]
-                               + (["...: ..."] if rel else [])) + "}"
-        out.append((name, mk(req, opt, rel)))
+                          (2, 0, False), (1, 0, True), (0, 1, True), (1, 1, "first"), (1, 1, "middle")]:
+        parts = [f"r{i+1}" for i in range(req)]
+        if rel == "middle":
+            parts.append("...: ...")
+        parts += [f"optional(o{i+1})" for i in range(opt)]
+        if rel is True:
+            parts.append("...: ...")
+        if rel == "first":
+            parts.insert(0, "...: ...")
+        name = "{" + ", ".join(parts) + "}"
+        out.append((name, mk(req, opt, rel)))     # d1 + d2 keeps the marker where the left operand had it
     return out
 
 
